@@ -44,9 +44,10 @@
 //!            another thread> so=<claims of a transferred key by
 //!            its new owner> it=<max WillIterateCycle iteration> hd=<hold point reached 0|1>
 //!            hi=<WillIterateCycle events before the first hold point was reached|->
+//!            uw=<code of the last panic caught in this execution, 0 = nothing unwound>
 //!            h=<hash of the H2 trace> t=<trace file|-> r=<results>
 //!   G <iter> <op> cur=<rev> px=<n> s=<F.K=V,..> u=<F.K,..>  probe record of this schedule
-//!   F <iter> kind=<deadlock|maxsteps|panic|hang> sched=<file|-> msg=<text>
+//!   F <iter> kind=<deadlock|maxsteps|panic|hang> sched=<file|-> [unwound=<code>] msg=<text>
 //!   END id iters=<n> failures=<f>
 //!   SKIPPED id
 //! <results> ::= op:who=r,r/who=r;op:...   who = m (main handle) | thread index; r = value | pCODE
@@ -623,10 +624,19 @@ fn results_text(results: &[(usize, Vec<(String, Vec<Res>)>)]) -> String {
     if s.is_empty() { "-".into() } else { s }
 }
 
+/// code of the last panic caught in the current execution (0 = nothing unwound).  Under shuttle
+/// an execution in which something unwound is not a sound exploration (shuttle switches tasks
+/// while `std::thread::panicking()` is true): the caller re-examines such cases on OS threads.
+static UNWOUND: AtomicUsize = AtomicUsize::new(0);
+
 fn guarded(f: impl FnOnce() -> u8) -> Res {
     match catch_unwind(AssertUnwindSafe(f)) {
         Ok(v) => Res::V(v),
-        Err(p) => Res::P(panic_code(p.as_ref())),
+        Err(p) => {
+            let code = panic_code(p.as_ref());
+            UNWOUND.store(code as usize, Ordering::SeqCst);
+            Res::P(code)
+        }
     }
 }
 
@@ -839,6 +849,7 @@ fn run_history(case: &Case, seq: bool, mode_seed: u64) -> IterObs {
         o.hold_iter_events = usize::MAX;
     }
     HOLD.reset(0, 0);
+    UNWOUND.store(0, Ordering::SeqCst);
     let _ = salsa::verif_take_proto_trace();
     TID.with(|t| t.set(MAIN));
     let mut db = Db {
@@ -1208,7 +1219,10 @@ fn report(case: &Case, args: &Args, pg: &Mutex<Progress>, o: IterObs) {
     let mut tfile = String::from("-");
     if let Some(dir) = &args.trace_dir {
         // keep the traces of schedules with transfers first, then with waits
-        let interesting = xtransfers > 0 || o.blocks > 0 || iter < 2;
+        // under shuttle the trace of an execution in which something unwound is not kept (task
+        // switches while a thread is panicking: not a sound run of the protocol)
+        let sound = !(cfg!(feature = "shuttle") && UNWOUND.load(Ordering::SeqCst) != 0);
+        let interesting = sound && (xtransfers > 0 || o.blocks > 0 || iter < 2);
         let room = pg.traces_written < args.trace_cap
             || (xtransfers > 0 && pg.traces_written < args.trace_cap * 2);
         if interesting && room {
@@ -1238,13 +1252,14 @@ fn report(case: &Case, args: &Args, pg: &Mutex<Progress>, o: IterObs) {
     let mut out = out.lock();
     writeln!(
         out,
-        "I {iter} b={} c={} x={} y={cross} tr={transfers} xt={xtransfers} so={selfonly} it={} hd={} hi={} h={h:016x} t={tfile} r={}",
+        "I {iter} b={} c={} x={} y={cross} tr={transfers} xt={xtransfers} so={selfonly} it={} hd={} hi={} uw={} h={h:016x} t={tfile} r={}",
         o.blocks,
         o.contended,
         o.execs,
         o.max_iter,
         o.held as u8,
         if o.hold_iter_events == usize::MAX { "-".to_string() } else { o.hold_iter_events.to_string() },
+        UNWOUND.load(Ordering::SeqCst),
         results_text(&o.results)
     )
     .unwrap();
@@ -1355,8 +1370,17 @@ fn explore(case: Arc<Case>, args: Arc<Args>) {
             g.iter += 1;
             g.failures += 1;
             println!(
-                "F {iter} kind={kind} sched={} attempt={attempt} runner_seed={seed} msg={}",
-                if newf.is_empty() { "-".to_string() } else { newf.join(",") },
+                "F {iter} kind={kind} sched={} unwound={} attempt={attempt} runner_seed={seed} msg={}",
+                // the schedule of THIS failure is the file persisted last (earlier new files belong
+                // to executions of this runner in which a caught panic made shuttle persist one)
+                newf.iter()
+                    .max_by_key(|f| {
+                        let d: String = f.rsplit('/').next().unwrap_or("").chars().filter(|c| c.is_ascii_digit()).collect();
+                        d.parse::<u64>().unwrap_or(0)
+                    })
+                    .cloned()
+                    .unwrap_or_else(|| "-".to_string()),
+                UNWOUND.load(Ordering::SeqCst),
                 &msg[..msg.len().min(600)]
             );
             *CASE.write().unwrap_or_else(|e| e.into_inner()) = None;
